@@ -9,7 +9,7 @@
 (* form a forest, the spec's own strict semantics never gets stuck on a    *)
 (* program of the typed generator (bounded type soundness of the SPEC).    *)
 (***************************************************************************)
-EXTENDS SyltSem, SyltGen, Json, IOUtils
+EXTENDS SyltSem, SyltOrder, Json, IOUtils
 
 VARIABLES id, prog, S, next, pc
 vars == <<id, prog, S, next, pc>>
@@ -38,9 +38,20 @@ Init ==
   /\ pc = "init" /\ next = 1 /\ S = NewState(Fuel)
   /\ IF Mode = "file"
      THEN \E k \in 1..Len(Progs) : id = [file |-> k] /\ prog = Progs[k].tops
-     ELSE \E cs \in (IF Mode = "singles" THEN SingleCases ELSE PairCases \cup SingleCases) :
-            /\ id = [o |-> cs.o, pos |-> cs.pos, i |-> cs.i, h |-> cs.h]
-            /\ prog = Harness(cs.h, cs.e, ResultType(cs.o))
+     ELSE \/ /\ Mode \in {"pairs", "singles"}
+             /\ \E cs \in (IF Mode = "singles" THEN SingleCases ELSE PairCases \cup SingleCases) :
+                  /\ id = [o |-> cs.o, pos |-> cs.pos, i |-> cs.i, h |-> cs.h]
+                  /\ prog = Harness(cs.h, cs.e, ResultType(cs.o))
+          \* evaluation order under interleaved effects (SyltOrder)
+          \/ /\ Mode \in {"pairs", "singles", "order"}
+             /\ \E cs \in OrderCases :
+                  /\ id = [o |-> cs.o, pos |-> cs.pos, i |-> cs.i, h |-> cs.h]
+                  /\ prog = HOrder(cs.e)
+          \* values that differ per activation, live across a re-entrant call (SyltOrder)
+          \/ /\ Mode \in {"pairs", "singles", "reent", "reentsingles"}
+             /\ \E cs \in (IF Mode \in {"singles", "reentsingles"} THEN ReentSingles ELSE ReentPairs \cup ReentSingles) :
+                  /\ id = [o |-> cs.o, pos |-> cs.pos, i |-> cs.i, h |-> cs.h]
+                  /\ prog = HRecDep(cs.e, cs.ty)
 
 StartId == LET c == {t \in 1..Len(prog) : prog[t].k = "def" /\ prog[t].n = "start"} IN
            IF c = {} THEN 0 - 5 ELSE prog[CHOOSE t \in c : TRUE].b
